@@ -95,7 +95,7 @@ func newAPIWorld(ac APIConfig) *apiWorld {
 		cfg.Features = func(context.Context) graphql.FeatureSet { return graphql.NewFeatureSet("beta") }
 	}
 	t := makeTypes()
-	for name, def := range makeFields(t.n, t.i) {
+	for name, def := range t.fields() {
 		cfg.AddQueryField(name, def)
 	}
 	cfg.AddNamedType(t.o)
